@@ -11,7 +11,7 @@ from .lexer import LexError
 
 ROOT = os.path.dirname(os.path.dirname(os.path.abspath(__file__)))
 BUILD = os.path.join(ROOT, "build")
-RLIMIT = os.environ.get("VERIF_RLIMIT", "60")
+RLIMIT = os.environ.get("VERIF_RLIMIT", "200")
 
 ASSUME_PAT = re.compile(r"\b(assume\s*\(|admit\s*\(|external_body|assume_specification|uninterp\b|external_type_specification|external_fn_specification|#\[verifier::external\]|axiom\b)")
 
@@ -158,6 +158,10 @@ def scan_assumptions(g):
         if m:
             # name of the item it applies to: next `fn`/`struct` line
             name = "?"
+            ms = re.search(r"assume_specification\s*(?:<[^\[]*>)?\s*\[([^\]]+)\]", ln)
+            if ms:
+                found.append("assume_specification: " + ms.group(1).strip())
+                continue
             for k in range(i, min(i + 12, len(g.lines))):
                 mm = re.search(r"\b(?:fn|struct|type)\s+([A-Za-z0-9_]+)", g.lines[k])
                 if mm:
